@@ -216,7 +216,8 @@ Definition render_struct_line (f : fview) (c : ictx) (hint : type_hint) (idx : n
       else if is_into_existing k && hint_su hint then
         Ok ([TIdent "other"; dot] ++ get_field_path fm ++ [P1 "="] ++ obj ++ [TIdent ident; semi])
       else if is_intoish k && hint_eqb hint HTuple then
-        Ok (obj ++ [TIdent ident; comma])
+        Ok (if c_post_init c then [TIdent "obj"; dot; member_tok (MIndex idx); P1 "="] ++ obj ++ [TIdent ident; semi]
+            else obj ++ [TIdent ident; comma])
       else if is_into_existing k && hint_eqb hint HTuple then
         Ok ([TIdent "other"; dot; member_tok (MIndex idx); P1 "="] ++ obj ++ [TIdent ident; semi])
       else if is_from k && negb (hint_eqb hint HTuple) then
@@ -256,7 +257,7 @@ Definition render_struct_line (f : fview) (c : ictx) (hint : type_hint) (idx : n
       else if is_intoish k && hint_eqb hint HTuple then
         let rfp := get_child_field_path fm in
         right <- get_action_or a (Some rfp) c (obj ++ rfp) ;;
-        Ok (right ++ [comma])
+        Ok (if c_post_init c then [TIdent "obj"; dot; member_tok (MIndex idx); P1 "="] ++ right ++ [semi] else right ++ [comma])
       else if is_into_existing k && hint_eqb hint HTuple then
         let left := get_field_path (MIndex idx) in
         let rfp := get_child_field_path fm in
@@ -276,7 +277,7 @@ Definition render_struct_line (f : fview) (c : ictx) (hint : type_hint) (idx : n
         let index' := if is_variant c then MNamed (f_ident index) else fm in
         let field_path := get_child_field_path index' in
         right <- get_action_or a (Some field_path) c (obj ++ field_path) ;;
-        Ok (right ++ [comma])
+        Ok (if c_post_init c then [TIdent "obj"; dot; member_tok (MIndex idx); P1 "="] ++ right ++ [semi] else right ++ [comma])
       else if is_into_existing k && hint_tu hint then
         n <- get_field_name_or a (MIndex idx) ;;
         let left := get_field_path n in
